@@ -351,7 +351,12 @@ def flatten_rule(ctx):
             eff, guards = e
             if isinstance(eff, App) and eff.op == "eff:call" and isinstance(eff.args[0], App) \
                     and eff.args[0].op == "meth:update":
-                found = guards
+                # update(<decoded member>) flattens; update({k.id: item}) is an ordinary store.  One call whose argument is selected
+                # by a condition counts under that condition
+                from sa.terms import top_cases, dict_pairs as _dp
+                for gv, alt in top_cases(eff.args[0].args[1]) if len(eff.args[0].args) > 1 else []:
+                    if not (isinstance(alt, App) and _dp(alt) is not None):
+                        found = tuple(guards) + tuple(gv.items())
     if found is None:
         raise AnalysisError("SuitKeyValue.to_cbor: flattening update(...) not recognised")
     # decision table: for a key that is each of the key classes named in the guards (or, when the guard asks the metadata, each of
